@@ -65,7 +65,7 @@ def kind(v):
 
 def values(ctx):
     out = []
-    out += gen.INTS + [2**16 - 1, 2**16, 2**16 + 1, 2**32, -2**32, 10**30]
+    out += gen.INTS + [2**16 - 1, 2**16, 2**16 + 1, 2**32, -2**32, 10**30] + gen.WIDE_INTS + [[w, -w] for w in gen.WIDE_INTS[:2]]
     out += gen.FLOATS + [3.0, -7.0, 1e16, 0.1]
     out += [True, False]
     out += [s for s in gen.STRS if s != "\ud800"] + ["0", "007", "1e3", "١٢٣", "１２", " 42 ", "4_2", "0b11", "True", "None"]
